@@ -75,6 +75,10 @@ FLAVOURS = {
         c=BASE + ["-DNDEBUG", "-fprofile-instr-generate", "-fcoverage-mapping"],
         cxx=BASE + ["-fprofile-instr-generate", "-fcoverage-mapping"],
         ld=["-fprofile-instr-generate"]),
+    "cov-sched": dict(  # same, for the targets that run under the controlled scheduler
+        c=BASE + ["-DNDEBUG", "-fprofile-instr-generate", "-fcoverage-mapping", "-include", HOOK],
+        cxx=BASE + ["-fprofile-instr-generate", "-fcoverage-mapping", "-DVERIF_SCHED=1"],
+        ld=["-fprofile-instr-generate"]),
     "sched": dict(
         c=BASE + ["-DNDEBUG", "-fsanitize=address," + UBSAN_C, "-fno-sanitize-recover=all",
                   "-include", HOOK],
@@ -204,7 +208,7 @@ def build_flavour(name, log=sys.stderr):
     """Returns the path of a static archive holding all library objects of this flavour."""
     fl = FLAVOURS[name]
     hd = header_digest()
-    if name == "sched":
+    if name in ("sched", "cov-sched"):
         hd = sha(hd, file_digest(HOOK))
     inc = includes()
     objdir = os.path.join(BUILD, "obj", name)
